@@ -26,8 +26,16 @@ def rows_of(kv):
 
 
 def classify(ka, kb, a, b):
-    """shape of a collision between two different rows; anything but the three known shapes is new"""
+    """shape of a collision between two different rows; anything but the three known shapes is new.
+    The known shapes come from concatenating fields without lengths / presence / kind: they need either two
+    kinds, or a presence flag that differs, or at least two adjacent fields whose bytes moved. A pair that
+    differs in ONE field only (other than an empty-vs-absent optional) is never one of them."""
     if ka != kb: return "cross-kind-collision"
+    diff = [f for f in set(a) | set(b) if a.get(f) != b.get(f)]
+    if len(diff) == 1:
+        f = diff[0]
+        if ka == "node" and f in OPTIONAL and {a.get(f), b.get(f)} == {"", "-"}: return "optional-presence-collision"
+        return "single-field-collision"
     if any((a.get(f) == "-") != (b.get(f) == "-") for f in OPTIONAL if ka == "node"):
         return "optional-presence-collision"
     if any(len(a.get(f, "")) != len(b.get(f, "")) for f in VARIABLE if f in a or f in b):
